@@ -1164,6 +1164,7 @@ MUTANTS += [
       "samples = SMCSamples.from_samples(\n            samples, xp=self.xp, beta=beta, dtype=self.dtype\n        )\n        samples = samples.resample(beta, rng=self.rng)\n        return samples, beta, iteration", "C11.restore"),
 ]
 NEUTRALS = [
+    M("final enlargement only after the run reached beta = 1 (repairs the pairing finding)", _B, "if n_final_samples is not None and len(samples.x) != n_final_samples:", "if beta == 1.0 and n_final_samples is not None and len(samples.x) != n_final_samples:"),
     M("payload metadata defaults to an empty dict that is copied before use", "src/aspire/samplers/base.py", "meta: dict | None = None,\n    ) -> dict:", "meta: dict = {},\n    ) -> dict:",
       more=[("\"meta\": meta or {},", "\"meta\": dict(meta),")]),
     __import__("aspire_sa.rules.smcloop", fromlist=["HELPER_NEUTRAL"]).HELPER_NEUTRAL,
